@@ -1,0 +1,34 @@
+//go:build verif
+
+// Verification hooks. This file is only compiled with the build tag "verif";
+// it adds entry points for the external verification harness and changes no
+// behaviour of the package.
+
+package redis
+
+import (
+	"crypto/tls"
+	"net"
+	"sort"
+)
+
+// VerifServeConn serves the specified connection synchronously through the
+// real connection loop, in the goroutine of the caller.
+func (server *Server) VerifServeConn(conn net.Conn) error {
+	return server.receive(conn, nil)
+}
+
+// VerifServeTLSConn is VerifServeConn for a connection that carries a TLS state.
+func (server *Server) VerifServeTLSConn(conn net.Conn, tlsState *tls.ConnectionState) error {
+	return server.receive(conn, tlsState)
+}
+
+// VerifCommandNames returns the names of all registered command executors.
+func (server *Server) VerifCommandNames() []string {
+	names := make([]string, 0, len(server.commandExecutors))
+	for name := range server.commandExecutors {
+		names = append(names, name)
+	}
+	sort.Strings(names)
+	return names
+}
